@@ -69,8 +69,8 @@ public:
         COCLS_VERIF_POINT("asub");
         while (!chain.compare_exchange_weak(_next, this, std::memory_order_release));
         COCLS_VERIF_POINT("apub");
-
-        assert (_next != this);
+        //no access to this awaiter beyond this point: once published it can be resumed (and its
+        //coroutine frame destroyed) by another thread
     }
     ///releases chain atomicaly
     /**
